@@ -40,3 +40,8 @@ package rgsw
 //@   nilable
 //@   havoc ct
 //@   ensures implies(isnil(err), n == announced(ct))
+
+// Read back in the order written (C08): see /verif/cmd/lvc/fieldordercheck.go
+//@ fieldorder Ciphertext
+//@   property C08
+//
